@@ -18,11 +18,12 @@ def nameKeys : List Bytes :=
    key externalBranchPubKeyName, key internalBranchPubKeyName, key externalChildNumName, key internalChildNumName]
 
 /-- no two records of the account bucket share a key, no key is empty, every name is ASCII -/
-theorem nameKeys_distinct : nameKeys.Pairwise (· ≠ ·) ∧ (∀ k ∈ nameKeys, k ≠ []) ∧
+def NamesDistinct : Prop := nameKeys.Pairwise (· ≠ ·) ∧ (∀ k ∈ nameKeys, k ≠ []) ∧
     (∀ s ∈ [keystoreVersionName, masterPrivKeyName, masterPubKeyName, cryptoPrivKeyName, cryptoPubKeyName,
       cryptoEntropyKeyName, entropyEncKeyName, accountUsageName, coinTypeName, remarkName, externalBranchPubKeyName,
-      internalBranchPubKeyName, externalChildNumName, internalChildNumName], s.toList.all (fun c => c.toNat < 128) = true) := by
-  decide
+      internalBranchPubKeyName, externalChildNumName, internalChildNumName], s.toList.all (fun c => c.toNat < 128) = true)
+
+theorem nameKeys_distinct : NamesDistinct := by unfold NamesDistinct; decide
 
 /-! ### bucket primitives -/
 
